@@ -52,6 +52,7 @@ JWE_OPS = ["jwe.encrypt_compact", "jwe.encrypt_json.flat", "jwe.encrypt_json.gen
            "jwe.decrypt_json.general"]
 JWE_ALGS = ["A128KW", "ECDH-ES", "PBES2-HS256+A128KW", "A128GCMKW", "ECDH-1PU"]
 CALLER = ["none", "optional-int", "required-int"]
+CALLER_OVERRIDES = ["kid-required", "typ-int"]      # a caller registration under a built-in name replaces the built-in entry
 WELL = {"kid": "k1", "typ": "JOSE", "x5c": ["QUJD"], "jku": "https://a.example/x"}
 
 
@@ -86,8 +87,10 @@ def header_ok(merged: dict, family: str, direction: str, alg, strict: bool, call
         registered.pop("b64")
     spec = ALG_SPECIFIC.get(alg, {}) if family == "jwe" else {}
     registered.update(spec)
-    if caller != "none":
+    if caller in ("optional-int", "required-int"):
         registered["zzz"] = "int"
+    if caller == "typ-int":
+        registered["typ"] = "int"
     if family == "jws" and not r7797 and merged.get("b64") is False:
         # the plain entry points cannot process an unencoded payload: refusing "b64": false there is legitimate (C01 demands
         # that it is never processed as if it were absent), accepting an unprotected one as an unknown member also is
@@ -104,6 +107,8 @@ def header_ok(merged: dict, family: str, direction: str, alg, strict: bool, call
         elif strict:
             return False
     if caller == "required-int" and "zzz" not in merged:
+        return False
+    if caller == "kid-required" and "kid" not in merged:
         return False
     if family == "jwe" and direction == "consume":
         for name in REQUIRED_ON_CONSUME.get(alg, []):
@@ -165,6 +170,10 @@ def registry_for(family: str, strict: bool, caller: str, r7797: bool, plain: boo
         extra = {"zzz": HeaderParameter("Z", "int")}
     elif caller == "required-int":
         extra = {"zzz": HeaderParameter("Z", "int", True)}
+    elif caller == "kid-required":
+        extra = {"kid": HeaderParameter("Key ID", "str", True)}
+    elif caller == "typ-int":
+        extra = {"typ": HeaderParameter("Type", "int")}
     if family == "jwe":
         return JWERegistry(header_registry=extra, algorithms=JW.ALLOW_ALL, strict_check_header=strict)
     cls = R7797 if (r7797 and not plain) else JWSRegistry
@@ -404,6 +413,19 @@ def all_cells():
                                     continue
                                 cells.append({"op": op, "alg": alg, "pos": pos, "param": param, "vname": vname, "value": value,
                                               "present": present, "strict": strict, "caller": caller})
+    # caller registrations under built-in names
+    for op in JWS_OPS + JWE_OPS:
+        json_op = "json" in op
+        jwe_op = op.startswith("jwe.")
+        for pos in (["protected", "unprotected"] if json_op else ["protected"]):
+            for caller, param in (("kid-required", "kid"), ("typ-int", "typ")):
+                for vname, value in [v for v in VALUES if v[0] in ("str", "int", "null", "true", "list-str")] + [("absent", None)]:
+                    for strict in (True, False):
+                        c = {"op": op, "pos": pos, "param": param, "vname": vname, "value": value, "present": vname != "absent",
+                             "strict": strict, "caller": caller}
+                        if jwe_op:
+                            c["alg"] = "A128KW"
+                        cells.append(c)
     # the RFC 7797 entry points handed a plain jws.JWSRegistry: the b64 rules do not depend on the registry class
     for op in JWS_OPS:
         if not op.startswith("7797."):
@@ -509,10 +531,72 @@ def run(rng: Rng, tier: str, index: int) -> RunResult:
             res.probe("dontcare")
             continue
         res.violation(ID, v[0], v[1], {"cell": cell})
+    if index % 8 == 0:
+        for v in history_leak(node, res, tr):
+            res.violation(ID, v[0], v[1], {"history": v[2]})
     res.stats["cells_total"] = len(cells())
     res.events = tr.n
     res.digest = tr.digest()
     return res
+
+
+def history_leak(node: Node, res=None, tr=None, only=None) -> list:
+    """a strict registry that has just processed an algorithm with its own header parameters (epk / apu / apv, p2s / p2c,
+    iv / tag) must still refuse those names under an algorithm that does not register them"""
+    from joserfc import jwe
+    from joserfc.jwe import JWERegistry
+    out = []
+    firsts = [("ECDH-ES", "A128GCM", ["epk", "apu", "apv"]), ("PBES2-HS256+A128KW", "A128GCM", ["p2s", "p2c"]), ("A128GCMKW", "A128GCM", ["iv", "tag"])]
+    for regkind in ("instance", "default", "instance+algorithms"):
+        for alg1, enc1, names in firsts:
+            if regkind == "default" and alg1 != "ECDH-ES":
+                continue        # only recommended algorithms reach the default registry
+            for name in names:
+                for value in ("QUJD", 7):
+                    hist = [regkind, alg1, name, value]
+                    if only is not None and hist != only:
+                        continue
+                    reg = JWERegistry(algorithms=JW.ALLOW_ALL)
+                    kw1 = {"registry": reg} if regkind != "default" else {}
+                    kw2 = dict(kw1)
+                    if regkind == "instance+algorithms":
+                        kw2["algorithms"] = ["A128KW", "A128GCM"]
+                    rkey, jpriv, jpub = node.jwe_key(alg1)
+                    h1 = {"alg": alg1, "enc": enc1}
+                    if alg1.startswith("PBES2"):
+                        h1["p2c"] = 3
+                    try:
+                        with warnings.catch_warnings():
+                            warnings.simplefilter("ignore")
+                            tok1 = jwe.encrypt_compact(h1, b"first", jpub, **kw1)
+                            jwe.decrypt_compact(tok1, jpriv, **kw1)
+                    except Exception as e:
+                        out.append(("history:first-operation-failed", "%s: %s" % (type(e).__name__, e), hist))
+                        continue
+                    # second operation: A128KW with the earlier algorithm's parameter in the header
+                    _, k16, _ = node.jwe_key("A128KW")
+                    h2 = {"alg": "A128KW", "enc": "A128GCM", name: value}
+                    outcomes = []
+                    try:
+                        jwe.encrypt_compact(dict(h2), b"second", k16, **kw2)
+                        outcomes.append("produce")
+                    except Exception:
+                        pass
+                    try:
+                        bt = rjwe.build("compact", dict(h2), b"second", [rjwe.Rcpt("A128KW", node.oct16)], Rng("c15-hist"))
+                        jwe.decrypt_compact(bt.ser, k16, **kw2)
+                        outcomes.append("consume")
+                    except Exception:
+                        pass
+                    if res is not None:
+                        res.case("history", *map(str, hist))
+                        res.fired("history:unregistered-name-after-registering-algorithm")
+                        tr.add("hist", regkind, alg1, name, str(value), outcomes)
+                    for o in outcomes:
+                        out.append(("history:%s:unregistered-%s-accepted-after-%s" % (o, name, alg1.split("+")[0].split("-HS")[0]),
+                                    "after one %s message on the same (%s) registry an A128KW header carrying %s=%r passed the strict check (%s side)" % (
+                                        alg1, regkind, name, value, o), hist))
+    return out
 
 
 def evidence_extra(out):
@@ -521,6 +605,8 @@ def evidence_extra(out):
 
 def replay(repro: dict):
     node = Node(Rng("replay"))
+    if "history" in repro:
+        return [(v[0], v[1]) for v in history_leak(node, only=repro["history"])]
     cell = repro["cell"]
     outcome, merged, family, direction, alg, r7797 = execute(node, cell)
     v = judge(cell, outcome, merged, family, direction, alg, r7797)
